@@ -35,6 +35,28 @@ CLAIMED.update({
         note='str.lower modelled as ASCII; meta fallback not judged in XML / nested iframe documents.',
         technique='Coq proof of filter = RFC 4647 relation + extracted-model/implementation/oracle differential'),
 })
+CLAIMED.update({
+    'C11': dict(cat='proof', design='DESIGN.md §7 C11',
+        text='Theorems on the matcher model: in HTML tag and attribute names match up to ASCII case (for every name), in XML exactly; '
+             'HTML-only lists never match when the document is XML and not XHTML; document-type detection; the regenerated re.I closure '
+             'table makes every ASCII letter match both cases. Value rules live in the compiled regexes: validated AST-for-AST against '
+             'AttrPat.v. Same logical tree as HTML x3 parsers / XHTML / XML, implementation vs model vs reference semantics.',
+        note='Non-ASCII case folding is observed, not judged.',
+        technique='Coq proofs on matcher model + translation validation of attribute templates + differential'),
+    'C12': dict(cat='proof', design='DESIGN.md §7 C12',
+        text='Theorems: element namespace test = decision table of the property text (for all maps/prefixes/elements); unmapped prefix '
+             'matches nothing (elements and attributes); the attribute lookup is `find` with the table attr_pred ([ns|a], [*|a], [|a], [a]). '
+             'XML/XHTML/HTML5 documents x 13 prefix maps: implementation vs extracted model vs reference semantics.',
+        note='attribute theorem assumes string-valued attributes whose namespaced keys have a local name (what parsers store).',
+        technique='Coq decision-table proofs + differential'),
+    'C19': dict(cat='proof', design='DESIGN.md §7 C19',
+        text='Theorems: only plain text nodes are content; :-soup-contains = substring of the concatenated text nodes, -own = substring of '
+             'one own text node; nothing below an iframe is visited under the iframe restriction; :empty = no element child and no text '
+             'child with a non-white-space character, with the class read from the regenerated RE_NOT_EMPTY. Differential on trees '
+             'with every node kind and nested iframes.',
+        note='the linear next_good skipping loop of get_descendants is modelled by its recursive meaning and tied by correspondence only.',
+        technique='Coq proofs on matcher model (incl. a regex fact on a regenerated pattern) + differential'),
+})
 NOT_YET = {}
 props = [json.loads(l) for l in open(os.path.join(V, 'properties.jsonl'))]
 checks, na = [], []
